@@ -66,3 +66,17 @@ package messages
 // the state file is mapped SHARED and writable: what is stored reaches the file (a private mapping would be lost at exit)
 //@ callsite (*store).Consume -> github.com/tysontate/gommap.Map(fd uintptr, prot gommap.ProtFlags, flags gommap.MapFlags)
 //@   requires [C15] flags == 1 && prot == 3
+
+// C15: the persisted position survives a restart: the state file is created (and truncated) only when it does not exist yet;
+// an existing one is opened as it is
+//@ fun notexist(err error) bool
+//@ trusted func os.Stat(name string) (fi os.FileInfo, err error)
+//@   modifies #lastStatErr
+//@   records #lastStatErr := err
+//@ trusted func os.IsNotExist(err error) (r bool)
+//@   ensures r == notexist(err)
+//@   pure
+//@ trusted func os.OpenFile(name string, flag int, perm os.FileMode) (fd *os.File, err error)
+//@   modifies nothing
+//@ callsite (*store).Consume -> os.OpenFile(name string, flag int, perm os.FileMode)
+//@   requires [C15] name == statePath && (flag == 2 || notexist(#lastStatErr))
